@@ -11,7 +11,7 @@ let err_word (e : int) : string = match e with
   | 25 -> "trailing_Base_64_data" | 26 -> "illegal_Base_64_data" | 27 -> "incomplete_Base_64_data"
   | 28 -> "generic_data_has_incorrect_length"
   | 29 -> "illegal_NSEC3_salt" | 30 -> "NSEC3_salt_too_long" | 31 -> "illegal_Base_32_data"
-  | 32 -> "short_Base_32_input" | 33 -> "NSEC3_owner_hash_too_long" | 34 -> "expected_Nsec3HashAlgorithm" | 99 -> "UNSUPPORTED" | n -> "E" ^ string_of_int n
+  | 32 -> "short_Base_32_input" | 33 -> "NSEC3_owner_hash_too_long" | 34 -> "expected_Nsec3HashAlgorithm" | 35 -> "expected_Rtype" | 99 -> "UNSUPPORTED" | n -> "E" ^ string_of_int n
 let show_entry = function
   | ERecord (o, c, t, r, d) ->
     Printf.sprintf "R:%s:%d:%d:%d:%s" (hex_of_bytes o) (int_of_n c) (int_of_n t) (int_of_n r) (hex_of_bytes d)
